@@ -13,6 +13,8 @@ Units
   set     norm set by constant / (*n,1) array / n-shaped array / list / function / one-component field,
           via setter, constructor, constructor with validity mask; then a value update (no renormalisation)
   get     norm getter (values, one component, mesh, unit, validity), orientation (unit / zero), orientation*norm
+  reuse   histories: read / set first, change the values through every public route (in-place writes into field.array,
+          array setter, update_field_values), read / set again - the answers belong to the current values
 """
 import math
 from fractions import Fraction as Fr
@@ -30,7 +32,7 @@ RULE = ("unit set: full product mesh x nvdim x chunk of the vector alphabet x no
 ASSUMPTIONS = [
     "scope: meshes with <= 8 cells in 1-3 dimensions, nvdim 1-4, real float64 fields (default dtype)",
     "vector alphabet per nvdim: exact zero; +-L*e_k for every axis k; L*(3,4,0,..)/5 (also on the last two components), "
-    "L*generic mixed-sign direction; L in {1, 1e-6, 1e-3, 5, 1e8, 1e150}; get-unit additionally 1e-9 (below the 1e-8 "
+    "L*generic mixed-sign direction; L in {1, 1e-6, 1e-3, 5, 1e8, 1e150}; set-unit additionally 5e-9 and 1e-12 (non-zero, so they must get the target length); get-unit additionally 1e-9 (below the 1e-8 "
     "threshold; outside the property's quantifier: orientation may be zero or unit there, nothing else is judged)",
     "norm setting and norm/orientation are cell-wise: cells do not interact, so enumerating all chunks of the alphabet "
     "(each chunk next to zeros and to other magnitudes) covers all per-cell inputs of the alphabet",
@@ -45,6 +47,7 @@ SHAPES_T = [(1,), (3,), (8,), (2, 2), (2, 4), (1, 3), (2, 2, 2), (1, 2, 3)]
 SHAPES_Q = [(3,), (2, 4), (1, 2, 3)]
 LENGTHS = [1.0, 1e-6, 1e-3, 5.0, 1e8, 1e150]
 TINY = 1e-9
+SMALL = [5e-9, 1e-12]  # non-zero vectors shorter than the 1e-8 threshold of ORIENTATION: the norm SETTER must still treat them as non-zero
 TARGETS = [1.0, 2.5, 8e5, 0.0]
 GENERIC = {1: [], 2: [(-4.0, 3.0)], 3: [(1.0, -2.0, 2.0)], 4: [(1.0, -2.0, 2.0, -4.0)]}
 GNORM = {2: 5.0, 3: 3.0, 4: 5.0}
@@ -73,7 +76,7 @@ def directions(d):
 def alphabet(d, tiny=False):
     """list of (class, vector); zeros interleaved so that every chunk meets a zero neighbour"""
     vs = []
-    for L in LENGTHS + ([TINY] if tiny else []):
+    for L in LENGTHS + ([TINY] if tiny else SMALL):
         for u in directions(d):
             vs.append(("tiny" if L == TINY else "regular", tuple(L * x for x in u)))
     out = []
@@ -342,9 +345,101 @@ def unit_get(ctx):
     if C.field_snap(f) != before:
         ctx.fail("Field.norm-get/field-modified", "reading norm / orientation changed the field", instance=inst)
 
+def _state_ok(ctx, f, tag, inst):
+    """norm / orientation / norm setter against the values the field holds NOW"""
+    cur = np.array(f.array, dtype=float)
+    n = cur.shape[:-1]
+    cells = [tuple(int(i) for i in idx) for idx in np.ndindex(*n)]
+    ctx.step(2, f"{tag}: norm, orientation")
+    nf, of = f.norm.array, f.orientation.array
+    ctx.observe(nf, of)
+    for idx in cells:
+        v = cur[idx]
+        L = exact_len(v)
+        ctx.check(2)
+        g = float(nf[idx][0])
+        if not (g == 0.0 if L == 0 else abs(g - L) <= 1e-12 * L):
+            ctx.fail(f"reuse/{tag}/norm-not-the-length-of-the-current-values",
+                     f"cell {idx} holds {v.tolist()} (length {L!r}) but norm says {g!r}", instance=inst)
+            return False
+        o = np.asarray(of[idx], dtype=float)
+        if L == 0:
+            ok = not np.any(o != 0)
+        elif L > 1.1e-8:
+            ok = bool(np.all(np.abs(o - v / L) <= 1e-12))
+        else:
+            ok = True
+        if not ok:
+            ctx.fail(f"reuse/{tag}/orientation-not-the-unit-vector-of-the-current-values",
+                     f"cell {idx} holds {v.tolist()} but orientation says {o.tolist()}", instance=inst)
+            return False
+    ctx.step(1, f"{tag}: norm = 2.5")
+    f.norm = 2.5
+    new = np.array(f.array, dtype=float)
+    for idx in cells:
+        v, w = cur[idx], new[idx]
+        L = exact_len(v)
+        ctx.check()
+        if L == 0:
+            ok = not np.any(w != 0)
+        else:
+            L1 = exact_len(w) if np.all(np.isfinite(w)) else float("nan")
+            ok = abs(L1 - 2.5) <= 2.5e-12 and bool(np.all(np.abs(w / 2.5 - v / L) <= 1e-12))
+        if not ok:
+            ctx.fail(f"reuse/{tag}/norm-set-wrong-for-the-current-values",
+                     f"cell {idx} held {v.tolist()}, after norm = 2.5 it holds {w.tolist()}", instance=inst)
+            return False
+    return True
+
+
+def unit_reuse(ctx):
+    """Non-initial states: the norm / orientation are read (or a norm is set) FIRST, then the values are changed through
+    every public route (in-place element and slice writes into field.array, the array setter, update_field_values),
+    then everything is read / set again: the answers must belong to the values the field holds at that moment."""
+    n = ctx.choose("n", [(3,), (2, 2), (1, 2, 3)])
+    d = ctx.choose("nvdim", [1, 3] if ctx.tier == "quick" else [1, 2, 3])
+    first = ctx.choose("first", ["norm", "orientation", "norm+orientation", "set-norm", "nothing"])
+    change = ctx.choose("change", ["array[cell] = v", "array[..., k] *= 10", "array[...] = 0 then one cell", "array = new",
+                                   "update_field_values", "none"])
+    second = ctx.choose("again", ["nothing", "norm", "orientation"])
+    mesh = mk_mesh(n)
+    arr = C.tracer(n, d, ctx.seed) - 2.0  # integers, one exact zero component somewhere, negative values
+    arr[tuple(0 for _ in n)] = 0.0          # one exact zero cell
+    f = df.Field(mesh, nvdim=d, value=arr.copy(), unit="A/m")
+    inst = ctx.key()
+
+    def read(what):
+        if "norm" in what and "set" not in what:
+            ctx.step(1, "norm")
+            f.norm
+        if "orientation" in what:
+            ctx.step(1, "orientation")
+            f.orientation
+        if what == "set-norm":
+            ctx.step(1, "norm = 4")
+            f.norm = 4.0
+
+    read(first)
+    last = tuple(k - 1 for k in n)
+    if change == "array[cell] = v":
+        f.array[last] = np.arange(3.0, 3.0 + d)
+    elif change == "array[..., k] *= 10":
+        f.array[..., d - 1] *= 10.0
+    elif change == "array[...] = 0 then one cell":
+        f.array[...] = 0.0
+        f.array[last] = -7.0
+    elif change == "array = new":
+        f.array = (arr[::-1] * 3.0 + 1.0).copy()
+    elif change == "update_field_values":
+        f.update_field_values((arr * -2.0 + 5.0).copy())
+    ctx.step(1, change)
+    read(second)
+    _state_ok(ctx, f, "after-change" if change != "none" else "second-use", inst)
+
 
 def units(tier):
     return [
         {"name": "set", "fn": unit_set, "bound": None},
         {"name": "get", "fn": unit_get, "bound": None},
+        {"name": "reuse", "fn": unit_reuse, "bound": None},
     ]
